@@ -19,6 +19,7 @@ import BddVerif.Lemmas.DotAlgoAll
 #print axioms B.Props.C20.dot_write_faithful
 #print axioms B.Props.C20.dot_write_pieces
 #print axioms B.Props.C20.dot_write_invalid_order
+#print axioms B.Props.C20.dot_write_budget
 #print axioms B.AlgoEq3Dot.write_bdd_as_dot_eq_writeSeq
 #print axioms B.AlgoEq3Dot.write_bdd_as_dot_eq_model
 #print axioms B.AlgoEq3Dot.write_bdd_as_dot_eq_model_ok
